@@ -29,8 +29,12 @@ func cmdSelftest(args []string) int {
 			fmt.Println("SELFTEST-FAIL:", p)
 		}
 	}
-	fmt.Printf("selftest: %d conformance vectors regenerated and decoded, %d problems (%.1fs)\n", n, len(problems), time.Since(start).Seconds())
-	if n < 400 || len(problems) > 0 {
+	bagProblems := bagSelftest()
+	for _, p := range bagProblems {
+		fmt.Println("SELFTEST-FAIL:", p)
+	}
+	fmt.Printf("selftest: %d conformance vectors regenerated and decoded, %d problems; bag encoder read back by go-rosbag, %d problems (%.1fs)\n", n, len(problems), len(bagProblems), time.Since(start).Seconds())
+	if n < 400 || len(problems) > 0 || len(bagProblems) > 0 {
 		return 2
 	}
 	return 0
